@@ -6,7 +6,8 @@ import pandas as pd
 
 
 def _is_input_key(k):
-    return not (k.startswith("res_") or k.startswith("_"))
+    # net["ppci"] is the internal calculation matrix calc_sc leaves on the net (currents.py "todo remove this"): an output
+    return not (k.startswith("res_") or k.startswith("_") or k == "ppci")
 
 
 def snapshot(net):
